@@ -17,9 +17,11 @@ UUID_RE = r"[A-Fa-f0-9]{8}-[A-Fa-f0-9]{4}-[A-Fa-f0-9]{4}-[A-Fa-f0-9]{4}-[A-Fa-f0
 INT_MAX_DIGITS = getattr(sys, "get_int_max_str_digits", lambda: 4300)() or 10**6
 
 CONVS = [
-    ("string", None, r"[^/]+", 100, ["a", "zz", "12", "1.5", "a b", "ü", "ab", "x1"]),
+    # (decoded) segment values that contain what a URL would have to escape: a literal per cent sign in front of two hex
+    # digits, query / fragment / parameter delimiters
+    ("string", None, r"[^/]+", 100, ["a", "zz", "12", "1.5", "a b", "ü", "ab", "x1", "a%20b", "50%", "x?y", "q;r", "%2F", "a#b", "%25"]),
     ("string(length=2)", None, r"[^/]{2}", 100, ["zz", "12", "ab"]),
-    ("string(minlength=2)", None, r"[^/]{2,}", 100, ["zz", "123", "abc"]),
+    ("string(minlength=2)", None, r"[^/]{2,}", 100, ["zz", "123", "abc", "x%41", "%zz"]),
     ("string(minlength=2, maxlength=3)", None, r"[^/]{2,3}", 100, ["zz", "123"]),
     # an int is a run of digits that int() converts: the interpreter refuses more than sys.get_int_max_str_digits() digits
     ("int", int, r"\d{1,%d}" % INT_MAX_DIGITS, 50, ["1", "12", "007", "0"]),
